@@ -28,7 +28,7 @@ fn has_choice(d: &MDesc) -> bool {
 impl Check for C03 {
     fn id(&self) -> &'static str { "C03" }
     fn rule(&self) -> String {
-        "case = (descriptor passing the default sanity rules, world for which the non-malleable satisfier succeeds, entry in {get_satisfaction, into_plan+satisfy}); oracle = exhaustive lazy search of ALL accepting witnesses of every script of the descriptor over the adversary alphabet (elements of the original witness, high-S twins of its ECDSA signatures, empty, 0x01, 0x02, 0x00, 0x80, 32 zero bytes, another 32-byte string, every preimage of every hash in the script, every public key, 33/65-byte junk) under standardness flags with symbolic signatures; required: the accepting set is exactly {library witness}. Non-trivial = script has a disjunction/threshold/multisig AND the alphabet contains a preimage or key not used in the witness; distinct by (text, world, entry).".into()
+        "case = (descriptor passing the default sanity rules (lanes unique / or-heavy: generated sane by construction; lane lib-sane: drawn from a superset -- repeated keys, or_i / d: before segwit -- and kept when the library calls it sane), world for which the non-malleable satisfier succeeds, entry in {get_satisfaction, into_plan+satisfy}); oracle = exhaustive lazy search of ALL accepting witnesses of every script of the descriptor over the adversary alphabet (elements of the original witness, high-S twins of its ECDSA signatures, empty, 0x01, 0x02, 0x00, 0x80, 32 zero bytes, another 32-byte string, every preimage of every hash in the script, every public key, 33/65-byte junk) under standardness flags with symbolic signatures; required: the accepting set is exactly {library witness}. Non-trivial = script has a disjunction/threshold/multisig AND the alphabet contains a preimage or key not used in the witness; distinct by (text, world, entry).".into()
     }
     fn assumptions(&self) -> Vec<String> {
         vec![
@@ -39,8 +39,8 @@ impl Check for C03 {
     }
     fn lanes(&self, tier: Tier) -> Vec<(&'static str, usize, usize)> {
         match tier {
-            Tier::Quick => vec![("unique", 12_000, 400), ("or-heavy", 16_000, 500)],
-            Tier::Thorough => vec![("unique", 400_000, 500), ("or-heavy", 500_000, 600)],
+            Tier::Quick => vec![("unique", 12_000, 400), ("or-heavy", 16_000, 500), ("lib-sane", 8_000, 400)],
+            Tier::Thorough => vec![("unique", 400_000, 500), ("or-heavy", 500_000, 600), ("lib-sane", 200_000, 500)],
         }
     }
     fn run_case(&self, lane: &str, src: &mut Src, rep: &mut Report) -> Result<(), Failure> {
@@ -52,6 +52,13 @@ impl Check for C03 {
         // hashes and locks, spent by a signer who holds everything -- the situations in which
         // the non-malleable chooser has real alternatives to rank
         let heavy = lane == "or-heavy";
+        // lane lib-sane: candidates from a superset of the sane scripts (keys drawn with
+        // repetition from a small pool -- also across sorted multisigs --, or_i / d: in
+        // pre-segwit scripts); "sane" is then purely the LIBRARY's verdict
+        let libsane = lane == "lib-sane";
+        if libsane {
+            kind = *src.pick(&[DescKind::Sh, DescKind::Sh, DescKind::Bare, DescKind::Wsh, DescKind::Wsh, DescKind::ShWsh, DescKind::TrTree]);
+        }
         if heavy && !matches!(kind, DescKind::Wsh | DescKind::ShWsh | DescKind::Sh | DescKind::TrTree) {
             kind = if src.bool() { DescKind::Wsh } else { DescKind::TrTree };
         }
@@ -68,9 +75,41 @@ impl Check for C03 {
                 c.leaf_w = [5, 5, 2];
                 c.key_style = KeyStyle::Hex;
             }
+            if libsane {
+                c.legacy_restrict = false;
+                c.distinct_keys = size % 2 == 0;
+                c.key_style = KeyStyle::Hex;
+                c.or_boost = 3;
+                c.max_multi_n = 3;
+                c.big_multi_n = 0;
+            }
             c
         });
-        let d = if !heavy && src.chance(1, 150) {
+        let d = if libsane && size % 2 == 1 && src.bool() && d.all_keys().len() >= 2 && !matches!(d, MDesc::Tr(..)) {
+            // one key copied over another position (any two fragments, sorted multisigs included)
+            let n = d.all_keys().len();
+            let (i, j) = (src.below(n), src.below(n));
+            let ks = d.all_keys();
+            let mut pos = 0usize;
+            d.map_keys(&mut |k| {
+                let out = if pos == j { ks[i].clone() } else { k.to_string() };
+                pos += 1;
+                out
+            })
+        } else {
+            d
+        };
+        if libsane {
+            let ks = d.all_keys();
+            let mut uniq = ks.clone();
+            uniq.sort();
+            uniq.dedup();
+            rep.class(if uniq.len() < ks.len() { "lib-sane:repeated-keys" } else { "lib-sane:distinct-keys" });
+            if matches!(d.ctx(), crate::mirror::spec::Ctx::Legacy | crate::mirror::spec::Ctx::Bare) && d.nodes().iter().any(|n| crate::mirror::analysis::has(n, &|x| matches!(x, crate::mirror::ast::Node::OrI(..) | crate::mirror::ast::Node::DupIf(..)))) {
+                rep.class("lib-sane:pre-segwit-minimalif-fragment");
+            }
+        }
+        let d = if !heavy && !libsane && src.chance(1, 150) {
             // probe of a listed finding: the same leaf script at two depths of a tree
             let (a, b2, i) = (keys::key_xonly(src.below(4)), keys::key_xonly(4 + src.below(4)), keys::key_xonly(8 + src.below(4)));
             let pk = |k: &str| crate::mirror::ast::Node::Check(Box::new(crate::mirror::ast::Node::PkK(k.to_string())));
@@ -91,6 +130,9 @@ impl Check for C03 {
         if !glue::is_sane(&d) {
             rep.class("not-sane");
             return Ok(());
+        }
+        if libsane {
+            rep.class("lib-sane:sane");
         }
         let mut world = if heavy && src.chance(2, 3) { gen::gen_full_world(src, &d) } else { gen::gen_world(src, &d) };
         let mut drop_internal: Option<[u8; 32]> = None;
